@@ -14,7 +14,7 @@ RULE = ("AST-first random filter-free queries (0-4 child/descendant segments, 1-
         "hostile member names) rendered with random lexical spelling, applied through env.find and compile().finditer to "
         "documents planted from the query; oracle = literal RFC 9535 nodelist semantics. Non-trivial: expected nodelist "
         "non-empty and (>=2 segments or >=2 selectors or a descendant segment); distinct by (AST, document)."
-        " A quarter of the cases go through one compiled query that was first abandoned half-way on another document (find_one / partial finditer), and some through an environment instance whose nondeterministic flag was switched on and off again before the checked call. A stream battery builds, queries and drops 192 same-shaped wide documents (256-1000 members) one after the other.")
+        " A quarter of the cases go through one compiled query that was first abandoned half-way on another document (find_one / partial finditer), and some through an environment instance whose nondeterministic flag was switched on and off again before the checked call. A concurrent part lets 4-8 threads compile and evaluate their own queries (some with 20-120 selectors in a segment) on the shared default environment with GIL hand-offs injected on package lines; every result is compared with the model. A stream battery builds, queries and drops 192 same-shaped wide documents (256-1000 members) one after the other.")
 ASSUMPTIONS = ["reference evaluator vf/oracle/sem.py transcribes RFC 9535 2.3/2.5 correctly (cross-validated against the repository's IETF example tables by ./selfcheck)",
                "documents are JSON values as json.load yields them (dict/list/str/int/float/bool/None, string keys)"]
 DECIDING_MONITORS = ["M-find"]
@@ -24,7 +24,59 @@ def plan(tier, seed, nproc, scale):
     total = int((240000 if tier == "quick" else 3000000) * scale)
     shards = nproc if tier == "quick" else nproc * 4
     per = max(1, total // shards)
-    return [{"kind": "random", "seed": "%d/%d" % (seed, i), "n": per} for i in range(shards)]
+    specs = [{"kind": "random", "seed": "%d/%d" % (seed, i), "n": per} for i in range(shards)]
+    specs += [{"kind": "threads", "seed": "%d/t%d" % (seed, i), "runs": 2 if tier == "quick" else 40} for i in range(4 if tier == "quick" else shards)]
+    return specs
+
+
+def thread_part(jp, rec, R, spec):
+    """4-8 threads compile and evaluate their own queries on the shared default environment at the same time (GIL hand-offs
+    injected on lines of the package); every result is compared with the model like in the sequential part."""
+    from ..threads import run_threads
+    from .. import mon
+    cfg = G.Cfg(filters=False, max_segments=4, big_ints=True)
+    gen = G.QGen(R, cfg)
+    for run in range(spec["runs"]):
+        nthreads = R.choice([4, 6, 8])
+        work_items = []
+        for k in range(nthreads):
+            items = []
+            for _ in range(14):
+                q = gen.query(root="$", nofilter=True)
+                if R.random() < 0.3:
+                    # many selectors in one segment: long enough for other threads to get a turn in the middle
+                    q = ("q", "$", (("child", tuple(R.choice([("idx", R.randint(-3, 3)), ("name", R.choice("abc")), ("wild",), ("slice", None, None, R.choice([1, -1]))]) for _ in range(R.randint(20, 120)))),) + q[2][:1])
+                doc = D.doc_for(R, q, maxdepth=3, maxwidth=4, shapes=0)
+                items.append((q, G.render(q, R, ws=R.choice(["none", "sparse"])), doc, mon.want_sig(SD.MODEL.find(q, doc))))
+            work_items.append(items)
+        got = [[] for _ in range(nthreads)]
+
+        def work(k):
+            for q, text, doc, want in work_items[k]:
+                got[k].append(mon._plain(lambda: mon.sig(jp.compile(text).find(doc)), ()))
+        hung, switches, sites, errors = run_threads(jp, "%s/%d" % (spec["seed"], run), nthreads, work, R.choice([0.05, 0.2, 0.5]))
+        if hung:
+            rec.timeout("thread run %d did not finish" % run)
+            continue
+        rec.feat("thread-runs")
+        rec.feat("thread-switches-inside-package", switches)
+        rec.case(("threads", spec["seed"], run), switches > 0)
+        for k in range(nthreads):
+            for (q, text, doc, want), o in zip(work_items[k], got[k]):
+                rec.monitor("M-find")
+                if o[0] != "ok" or o[1] != want:
+                    rec.violation("concurrent-use:" + ("nodes" if o[0] == "ok" else "exception:" + type(o[1]).__name__),
+                                  {"query": text[:300], "document": D.short(doc, 600), "threads": nthreads, "expected_locations": mon.locs_only(want)[:10],
+                                   "observed": mon.locs_only(o[1])[:10] if o[0] == "ok" else mon.describe_outcome(o), "switches_inside_package": switches})
+                    break
+
+
+def finish(m, tier):
+    sw = m["features"].get("thread-switches-inside-package", 0)
+    m["extra"]["thread_switches_inside_package"] = sw
+    if m["features"].get("thread-runs", 0) and sw == 0:
+        return ["the concurrent part observed no thread switch inside package code"]
+    return []
 
 
 def stream_battery(jp, rec, R):
@@ -56,6 +108,9 @@ def stream_battery(jp, rec, R):
 def run_shard(spec, rec):
     import jsonpath_rfc9535 as jp
     R = random.Random(spec["seed"])
+    if spec.get("kind") == "threads":
+        thread_part(jp, rec, R, spec)
+        return
     if str(spec["seed"]).split("/")[-1] in ("0", "1"):
         stream_battery(jp, rec, R)
     cfg = G.Cfg(filters=False, max_segments=4, big_ints=True)
